@@ -225,6 +225,17 @@ func (e *sqlEnv) compare(op string, a, b Value) Value {
 			sa, sb = x, b.(string)
 		case BlobVal:
 			sa, sb = string(x), string(b.(BlobVal))
+		case FloatVal:
+			y, ok := b.(FloatVal)
+			if !ok || !x.Known || !y.Known || x.T != nil || y.T != nil {
+				in.fail("unsupported", "sql: comparison of symbolic REAL values")
+			}
+			switch {
+			case x.F < y.F:
+				sa, sb = "a", "b"
+			case x.F > y.F:
+				sa, sb = "b", "a"
+			}
 		default:
 			in.fail("unsupported", "sql: float comparison")
 		}
@@ -935,6 +946,17 @@ func (in *Interp) sqlExecStmt(st *Store, layer *storeLayer, stmt *sqlStmt, param
 		return execResult{}
 	case "create":
 		in.sqlCreate(layer, stmt)
+		return execResult{}
+	case "drop":
+		if _, ok := layer.tables[stmt.table]; ok {
+			delete(layer.tables, stmt.table)
+			for i, n := range layer.order {
+				if n == stmt.table {
+					layer.order = append(layer.order[:i:i], layer.order[i+1:]...)
+					break
+				}
+			}
+		}
 		return execResult{}
 	case "insert":
 		t := in.table(layer, stmt.table)
